@@ -12,6 +12,7 @@ import (
 	"sync"
 	"sync/atomic"
 	"time"
+	"unicode/utf8"
 
 	"github.com/ash2k/stager/wait"
 	"github.com/cenkalti/backoff"
@@ -449,8 +450,73 @@ func translateToProtobufV2(metricMap *gostatsd.MetricMap) *pb.RawMessageV2 {
 	return &pbMetricMap
 }
 
+// validUTF8 reports whether every string of the series is valid UTF-8, which protobuf requires.
+func validUTF8(metricName string, source gostatsd.Source, tags gostatsd.Tags) bool {
+	if !utf8.ValidString(metricName) || !utf8.ValidString(string(source)) {
+		return false
+	}
+	for _, tag := range tags {
+		if !utf8.ValidString(tag) {
+			return false
+		}
+	}
+	return true
+}
+
+func toValidTags(tags gostatsd.Tags) gostatsd.Tags {
+	fixed := make(gostatsd.Tags, len(tags))
+	for i, tag := range tags {
+		fixed[i] = strings.ToValidUTF8(tag, "\uFFFD")
+	}
+	return fixed
+}
+
+// sanitizeUTF8 returns metricMap itself if all of its strings are valid UTF-8. Otherwise it returns a
+// copy in which invalid byte sequences are replaced by U+FFFD, merging series that become identical, so
+// that one client sending garbage can not make the whole flush unserialisable.
+func sanitizeUTF8(metricMap *gostatsd.MetricMap) *gostatsd.MetricMap {
+	valid := true
+	metricMap.Counters.Each(func(name, _ string, c gostatsd.Counter) { valid = valid && validUTF8(name, c.Source, c.Tags) })
+	metricMap.Gauges.Each(func(name, _ string, g gostatsd.Gauge) { valid = valid && validUTF8(name, g.Source, g.Tags) })
+	metricMap.Timers.Each(func(name, _ string, t gostatsd.Timer) { valid = valid && validUTF8(name, t.Source, t.Tags) })
+	metricMap.Sets.Each(func(name, _ string, s gostatsd.Set) {
+		valid = valid && validUTF8(name, s.Source, s.Tags)
+		for value := range s.Values {
+			valid = valid && utf8.ValidString(value)
+		}
+	})
+	if valid {
+		return metricMap
+	}
+
+	fix := func(s string) string { return strings.ToValidUTF8(s, "\uFFFD") }
+	mm := gostatsd.NewMetricMap(metricMap.Forwarded)
+	metricMap.Counters.Each(func(name, _ string, c gostatsd.Counter) {
+		c.Source, c.Tags = gostatsd.Source(fix(string(c.Source))), toValidTags(c.Tags)
+		mm.MergeCounter(fix(name), gostatsd.FormatTagsKey(c.Source, c.Tags), c)
+	})
+	metricMap.Gauges.Each(func(name, _ string, g gostatsd.Gauge) {
+		g.Source, g.Tags = gostatsd.Source(fix(string(g.Source))), toValidTags(g.Tags)
+		mm.MergeGauge(fix(name), gostatsd.FormatTagsKey(g.Source, g.Tags), g)
+	})
+	metricMap.Timers.Each(func(name, _ string, t gostatsd.Timer) {
+		t.Source, t.Tags = gostatsd.Source(fix(string(t.Source))), toValidTags(t.Tags)
+		t.Values = append([]float64(nil), t.Values...) // MergeTimer appends, do not share the backing array
+		mm.MergeTimer(fix(name), gostatsd.FormatTagsKey(t.Source, t.Tags), t)
+	})
+	metricMap.Sets.Each(func(name, _ string, s gostatsd.Set) {
+		values := make(map[string]struct{}, len(s.Values))
+		for value := range s.Values {
+			values[fix(value)] = struct{}{}
+		}
+		s.Source, s.Tags, s.Values = gostatsd.Source(fix(string(s.Source))), toValidTags(s.Tags), values
+		mm.MergeSet(fix(name), gostatsd.FormatTagsKey(s.Source, s.Tags), s)
+	})
+	return mm
+}
+
 func (hfh *HttpForwarderHandlerV2) postMetrics(ctx context.Context, metricMap *gostatsd.MetricMap, dynHeaderTags string, batchId uint64) {
-	message := translateToProtobufV2(metricMap)
+	message := translateToProtobufV2(sanitizeUTF8(metricMap))
 	hfh.post(ctx, message, dynHeaderTags, batchId, "metrics", "/v2/raw")
 }
 
